@@ -59,7 +59,7 @@ package filter
 // value's type has)
 //@ func filter.filterLength
 //@   never "stick.NewSafeValue(" nosafe
-//@   asserts counted: !istype(val, "string") ==> called("stick.Len(val)")
+//@   asserts counted: !istype(val, "string") ==> called("stick.Len(")
 //@   asserts len: !istype(val, "string") ==> istype(result, "int") && unbox(result, "int") == l
 //@ func filter.filterLower
 //@   never "stick.NewSafeValue(" nosafe
